@@ -35,18 +35,34 @@ func init() {
 func (c *Ctx) epicGuardOK(f *ssa.Function, site *ssa.BasicBlock, vCanon string, bypass map[edge]bool) (bool, string) {
 	isEpic := c.F.Anchors["isEpic"]
 	found := c.lookupEdges(f, "Tasks", vCanon, true)
-	item := c.lookupValue(f, "Tasks", vCanon)
-	if len(found) == 0 || item == nil {
+	if len(found) == 0 {
 		return false, "no graph.Tasks lookup of the epic id"
+	}
+	// X is the value of a comma-ok lookup Tasks[key] with key == vCanon (possibly inside a guard helper)
+	isItem := func(x ssa.Value) bool {
+		ex, ok := resolveEnv(x, curEnv).(*ssa.Extract)
+		if !ok || ex.Index != 0 {
+			return false
+		}
+		lk, ok := ex.Tuple.(*ssa.Lookup)
+		if !ok {
+			return false
+		}
+		if _, n, ok := fieldLoad(lk.X); !ok || n != "Tasks" {
+			return false
+		}
+		return c.canon(lk.Index) == vCanon
 	}
 	kind := edgesWhere(f, func(a Atom, holds bool) bool {
 		if a.Kind != "bool" || !holds {
 			return false
 		}
-		if b, n, ok := fieldLoad(a.X); ok && n == "IsEpic" && strip(b) == item {
-			return true
+		if u, ok := strip(a.X).(*ssa.UnOp); ok {
+			if fa, ok := u.X.(*ssa.FieldAddr); ok && fieldName(fa.X.Type(), fa.Field) == "IsEpic" && isItem(fa.X) {
+				return true
+			}
 		}
-		if cl, _ := callOf(a.X); cl != nil && cl.Call.StaticCallee() == isEpic && isEpic != nil && strip(cl.Call.Args[0]) == item {
+		if cl, _ := callOf(a.X); cl != nil && cl.Call.StaticCallee() == isEpic && isEpic != nil && isItem(cl.Call.Args[0]) {
 			return true
 		}
 		return false
@@ -135,7 +151,7 @@ func ruleVD8(c *Ctx) {
 			ok, why := c.epicGuardOK(f, em.Call.Block(), vc, bypass)
 			if ok && lg != nil {
 				item := c.lookupValue(f, "Tasks", vc)
-				if lk, isLk := item.(*ssa.Extract); isLk {
+				if lk, isLk := item.(*ssa.Extract); isLk && item != nil {
 					re := c.F.Anchors["replayEvents"]
 					if l2, ok2 := lk.Tuple.(*ssa.Lookup); ok2 && !valueFromCallTo(l2.X, lg) && !(re != nil && valueFromCallTo(l2.X, re)) {
 						ok, why = false, "the lookup is not on the graph loaded in this callback"
